@@ -136,7 +136,7 @@ Lemma break_select_spins l i c busy :
   nth_error (cases l) i = Some c -> is_shutdown c = true -> tm c = BreakSelect ->
   forall n, run l (repeat i n) = Running /\
             In i (ready_after_close l busy) /\ blocks l (ready_after_close l busy) = false.
-Proof. intros Hn Hc Ht. apply spins; [exact Hn|exact Hc|rewrite Ht; reflexivity]. Qed.
+Proof. intros Hn Hc Ht. apply (spins l i c busy Hn Hc). rewrite Ht; reflexivity. Qed.
 
 (* and the checker rejects exactly that *)
 Lemma spinner_rejected ls l i c :
